@@ -5,10 +5,21 @@ import z3
 from .values import *  # noqa
 from .state import St, CArr
 from .engine import Exec, zint, INT_CTYPES
+from . import api
 
 
-def assigned_names(stmts):
-    out = set()
+def assigned_paths(stmts):
+    """name -> None (whole variable may change) or set of top-level fields that may change."""
+    out = {}
+
+    def add(name, field):
+        if field is None:
+            out[name] = None
+        elif name not in out:
+            out[name] = {field}
+        elif out[name] is not None:
+            out[name].add(field)
+
     for s in stmts:
         for n in ast.walk(s):
             targets = []
@@ -27,13 +38,21 @@ def assigned_names(stmts):
                 stack = [t]
                 while stack:
                     x = stack.pop()
+                    if isinstance(x, (ast.Tuple, ast.List)):
+                        stack.extend(x.elts)
+                        continue
+                    chain = []
                     while isinstance(x, (ast.Attribute, ast.Subscript)):
+                        chain.append(x.attr if isinstance(x, ast.Attribute) else None)
                         x = x.value
                     if isinstance(x, ast.Name):
-                        out.add(x.id)
-                    elif isinstance(x, (ast.Tuple, ast.List)):
-                        stack.extend(x.elts)
+                        first = chain[-1] if chain else None
+                        add(x.id, first)
     return out
+
+
+def assigned_names(stmts):
+    return set(assigned_paths(stmts))
 
 
 class Outcome:
@@ -55,6 +74,7 @@ class ExecS(Exec):
             suf = s.pc[base_pc_len:]
             guards.append(z3.And(*suf) if len(suf) > 1 else (suf[0] if suf else z3.BoolVal(True)))
         out = St({}, base + [z3.Or(*guards)])
+        memo = {}
         keys = set()
         for s in states:
             keys |= set(s.env)
@@ -75,6 +95,10 @@ class ExecS(Exec):
                 except Unsupported:
                     pass
                 continue
+            mk_ = tuple(id(v) for v in vals)
+            if mk_ in memo:
+                out.env[k] = memo[mk_]
+                continue
             acc = vals[-1]
             try:
                 for g, v in zip(reversed(guards[:-1]), reversed(vals[:-1])):
@@ -84,6 +108,7 @@ class ExecS(Exec):
                     continue
                 raise
             out.env[k] = acc
+            memo[mk_] = acc
         return out
 
     # ------------------------------------------------------------------ blocks
@@ -124,8 +149,14 @@ class ExecS(Exec):
                             z3.And(-(2 ** (bits - 1)) <= v, v < 2 ** (bits - 1)), node)
             if ct in ("double", "float") and is_z3(v) and z3.is_int(v):
                 v = z3.ToReal(v)
+            lt = self.cx.c.local_types.get(target.id) if self.cx.depth == 0 else None
+            if lt is not None and isinstance(v, ListV) and isinstance(lt, api.SeqT):
+                from . import heap
+                v = heap.seq_from_list(v, lt.elem, st)
             st.env[target.id] = v
         elif isinstance(target, (ast.Tuple, ast.List)):
+            if isinstance(v, Opt):
+                v = self.need_not_none(v, st, node, "unpacking")
             if isinstance(v, TupV):
                 items = v.items
             elif isinstance(v, ListV) and all(z3.is_true(g) for g, _ in v.items):
@@ -144,6 +175,10 @@ class ExecS(Exec):
                 raise Unsupported(f"attribute assignment on {base!r}")
             h = self.world.setattr_handler(base.cls, target.attr)
             nb = h(self, st, base, v, node) if h is not None else base.with_field(target.attr, v)
+            # aliases: other variables bound to the very same object see the update
+            for k_, v_ in list(st.env.items()):
+                if v_ is base:
+                    st.env[k_] = nb
             self.assign(target.value, nb, st, node)
         elif isinstance(target, ast.Subscript):
             base = self.ev(target.value, st)
@@ -170,6 +205,13 @@ class ExecS(Exec):
             elif isinstance(base, SeqV):
                 i = zint(idx)
                 self.oblige(f"index.L{getattr(node, 'lineno', 0)}", "index", st, z3.And(0 <= i, i < base.n), node)
+                if isinstance(base.elem, api.ObjT):
+                    from . import heap
+                    oid = fresh("id.upd", I)
+                    out = []
+                    heap.facts(base.elem, base.elem.cls, "", oid, v, out)
+                    st.pc += out
+                    v = oid
                 self.assign(target.value, SeqV(z3.Store(base.arr, i, zint(v)), base.n, base.elem), st, node)
             else:
                 raise Unsupported(f"item assignment on {base!r}")
@@ -627,7 +669,8 @@ class ExecS(Exec):
         # invariant on entry
         for lab, inv in invs:
             self.oblige(f"loop{no}.{lab}.entry", "inv_entry", st, boolify(self.ev(inv, st, spec=True)), s)
-        mod = assigned_names(s.body) | ({nx} if nx else set())
+        paths = assigned_paths(s.body)
+        mod = set(paths) | ({nx} if nx else set())
         if tgt:
             mod.add(tgt)
         h = st.copy()
@@ -636,6 +679,14 @@ class ExecS(Exec):
             if v in h.env:
                 cur = h.env[v]
                 if isinstance(cur, CArr) and cur.name not in stored and not self.rebinds(s.body, v):
+                    continue
+                fields = paths.get(v)
+                if fields is not None and isinstance(cur, ObjV) and all(f in cur.fields for f in fields):
+                    nf = dict(cur.fields)
+                    for f in fields:
+                        nf[f] = fresh_like(cur.fields[f], f"{v}.{f}")
+                        h.pc += shape_invariants(nf[f])
+                    h.env[v] = ObjV(cur.cls, nf)
                     continue
                 h.env[v] = fresh_like(cur, v)
                 h.pc += shape_invariants(h.env[v])
